@@ -471,7 +471,9 @@ vec![("same-roa", true), ("mixed", true), ("two-entities", true), ("history", tr
             "distinct_outcomes": stats.distinct_outcomes.len(), "outcomes": stats.distinct_outcomes,
             "cap_hit": stats.capped, "watchdog_fired": stats.watchdog_fired, "schedules_not_followed_exactly": stats.diverged,
         }));
-        if stats.distinct_outcomes.len() < 2 {
+        // (a run that was cut short by its wall budget says nothing about
+        // the harness: the schedules that differ come later in the order)
+        if stats.distinct_outcomes.len() < 2 && !stats.capped {
             out.machinery_errors.push(format!("{variant}: only {} distinct outcome(s) over {} schedules - nothing collided", stats.distinct_outcomes.len(), stats.executions));
         }
     }
